@@ -85,44 +85,79 @@ def confirm_refutation(prop, target, sha, ob, rec, repo):
     rec["replay_result"] = r
     rec["confirmed"] = doc["confirmed"]
 
+CONTRACT_KINDS = ("ensures", "ensures-exc", "raises", "must-raise", "no-exception", "callpre", "flag", "trace", "frame", "assert")
+INTERNAL_KINDS = ("inv-entry", "inv-preserved", "variant-bounded", "variant-decreases", "decreases")
+
+
+def solve_all(prop, target, fv, obs, repo, tier, timeout_ms, cross):
+    from . import solve
+
+    recs = []
+    for ob in obs:
+        solve.solve_one(ob, timeout_ms=timeout_ms, cross=cross)
+        rec = obligation_record(ob)
+        if ob.verdict == "refuted":
+            confirm_refutation(prop, target, fv.sha, ob, rec, repo)
+            if rec.get("via") == "finite-instantiation" and not rec.get("confirmed"):
+                # candidate model did not replay: it proves nothing; go on with the complete query
+                cand = rec
+                ob.verdict, ob.model, ob.via = None, None, None
+                solve.solve_one(ob, timeout_ms=timeout_ms, cross=False, finite=False)
+                rec = obligation_record(ob)
+                rec["discarded_candidate"] = {"inputs": cand.get("inputs"), "replay": cand.get("replay_result")}
+                if ob.verdict == "refuted":
+                    confirm_refutation(prop, target, fv.sha, ob, rec, repo)
+        recs.append(rec)
+    return recs
+
+
 def verify_worker(job):
     prop, target, repo, tier, timeout_ms, canary = job
     t0 = time.time()
-    out = {"target": target, "obligations": [], "undecided": None, "error": None}
+    out = {"target": target, "obligations": [], "undecided": None, "error": None, "fallback": None}
+    from .core import EngineError
+    import copy as _copy
+
     try:
-        import z3
-        from . import contract as C, verify, solve, modelval
+        import z3  # noqa
+        from . import contract as C, verify, solve
 
         load_contracts(prop)
         c = [x for x in C.BY_PROP[prop] if x.target == target][0]
         c.known = [k for k in load_known(prop) if k.get("status") == "known" and k.get("target") == target]
-        fv = verify.FnVerifier(c, repo, tier=tier)
-        out["sha"] = fv.sha
-        out["lines"] = fv.nlines
-        obs = fv.generate()
-        for ob in obs:
-            solve.solve_one(ob, timeout_ms=timeout_ms, cross=(tier == "thorough"))
-            rec = obligation_record(ob)
-            if ob.verdict == "refuted":
-                confirm_refutation(prop, target, fv.sha, ob, rec, repo)
-                if rec.get("via") == "finite-instantiation" and not rec.get("confirmed"):
-                    # candidate model did not replay: it proves nothing; go on with the complete query
-                    cand = rec
-                    ob.verdict, ob.model, ob.via = None, None, None
-                    solve.solve_one(ob, timeout_ms=timeout_ms, cross=False, finite=False)
-                    rec = obligation_record(ob)
-                    rec["discarded_candidate"] = {"inputs": cand.get("inputs"), "replay": cand.get("replay_result")}
-                    if ob.verdict == "refuted":
-                        confirm_refutation(prop, target, fv.sha, ob, rec, repo)
-            out["obligations"].append(rec)
-        out["assumed"] = fv.assumed
-        out["abstracted"] = fv.abstract_notes
-        out["bounded_loops"] = fv.bounded_notes
-        out["stats"] = fv.stats
-        if canary:
+        need_fallback = False
+        try:
+            fv = verify.FnVerifier(c, repo, tier=tier)
+            out["sha"] = fv.sha
+            out["lines"] = fv.nlines
+            obs = fv.generate()
+            out["obligations"] = solve_all(prop, target, fv, obs, repo, tier, timeout_ms, tier == "thorough")
+            out["assumed"] = fv.assumed
+            out["abstracted"] = fv.abstract_notes
+            out["bounded_loops"] = fv.bounded_notes
+            out["stats"] = fv.stats
+            need_fallback = any(r["verdict"] != "discharged" and r["kind"] in INTERNAL_KINDS for r in out["obligations"])
+        except EngineError as e:
+            out["undecided"] = "%s: %s" % (type(e).__name__, e)
+            need_fallback = bool(c.loops)
+        if need_fallback and c.loops:
+            # proof lost (an invariant no longer holds or no longer matches the code): bounded
+            # symbolic stand-in - same contract, loops unrolled k times instead of cut
+            k = 3 if tier == "quick" else 5
+            fb = {"k": k, "obligations": [], "undecided": None}
+            try:
+                c2 = _copy.copy(c)
+                c2.loops = {}
+                c2.unroll = k
+                fv2 = verify.FnVerifier(c2, repo, tier=tier)
+                out.setdefault("sha", fv2.sha)
+                obs2 = [o for o in fv2.generate() if o.kind in CONTRACT_KINDS]
+                fb["obligations"] = solve_all(prop, target, fv2, obs2, repo, tier, timeout_ms, False)
+            except EngineError as e:
+                fb["undecided"] = "%s: %s" % (type(e).__name__, e)
+            out["fallback"] = fb
+        if canary and not out["undecided"]:
             # vacuity canary: `ensures False` must be refuted on at least one path
-            import copy as _copy
-
             c2 = _copy.copy(c)
             c2.ensures = {"canary": "False"}
             c2.lemmas = []
@@ -135,13 +170,8 @@ def verify_worker(job):
                     refuted += 1
                     break
             out["canary"] = {"ensures_paths": len(obs2), "refuted": refuted}
-    except Exception as e:  # noqa
-        from .core import EngineError
-
-        if isinstance(e, EngineError):
-            out["undecided"] = "%s: %s" % (type(e).__name__, e)
-        else:
-            out["error"] = traceback.format_exc()
+    except Exception:  # noqa
+        out["error"] = traceback.format_exc()
     out["wall"] = round(time.time() - t0, 3)
     return out
 
@@ -192,10 +222,11 @@ def check(prop, tier, repo, seed, jobs):
     if not contracts:
         print("CHECKER-ERROR no contracts for %s" % prop)
         return 3
-    natives = C.NATIVE_CHECKS.get(prop, [])
+    natives = list(C.NATIVE_CHECKS.get(prop, []))
     timeout_ms = 15000 if tier == "quick" else 60000
     vjobs = [(prop, c.target, repo, tier, timeout_ms, tier == "thorough") for c in contracts if c.verify]
     njobs = [(prop, n["name"], repo, tier, seed) for n in natives if tier in n.get("tiers", ("quick", "thorough"))]
+    njobs += [(prop, "domain:" + c.target, repo, tier, seed) for c in contracts if c.native_domain is not None]
     ctx = mp.get_context("fork")
     with ctx.Pool(min(jobs, max(1, len(vjobs) + len(njobs)))) as pool:
         vres_async = pool.map_async(verify_worker, vjobs, chunksize=1)
@@ -206,9 +237,10 @@ def check(prop, tier, repo, seed, jobs):
     os.makedirs(os.path.join(HERE, "replays"), exist_ok=True)
     os.makedirs(os.path.join(HERE, "evidence"), exist_ok=True)
 
-    violations = []  # (replay path, suffix)
+    violations = []  # (replay path, suffix, obligation)
     known_lines = []
-    undecided = []
+    proof_lost = []  # downgraded, not an alarm
+    undecided = []  # nothing could decide it -> exit 2
     errors = []
     n_obl = n_dis = 0
     by_backend = {}
@@ -220,6 +252,7 @@ def check(prop, tier, repo, seed, jobs):
     abstracted = []
     bounded = []
     all_obl_names = []
+    domain_results = {r.get("name"): r for r in nres if str(r.get("name", "")).startswith("domain:")}
 
     # --- known findings: replay witnesses natively (on this tree)
     for kf in known:
@@ -227,82 +260,122 @@ def check(prop, tier, repo, seed, jobs):
             continue
         rp = os.path.join(HERE, "replays", "%s-known-%s.json" % (prop, kf["id"]))
         with open(rp, "w") as f:
-            json.dump({"property": prop, "target": kf["target"], "obligation": kf.get("obligation"), "inputs": kf["witness"],
+            json.dump({"property": prop, "target": kf.get("target"), "obligation": kf.get("obligation"), "inputs": kf["witness"],
                        "label": kf.get("label"), "native_check": kf.get("native_check"), "known_id": kf["id"]}, f, indent=1)
         r = run_replay(rp, repo)
         if r.get("status") == "fail":
             known_lines.append("KNOWN-FINDING: property=%s %s [%s]" % (prop, kf["text"], kf["id"]))
         elif r.get("status") == "pass":
-            known_lines.append("NOTE known finding %s no longer reproduces on this tree (witness passes)" % kf["id"])
+            print("NOTE known finding %s no longer reproduces on this tree (witness passes)" % kf["id"])
         else:
             errors.append("known-finding witness %s could not be replayed: %s" % (kf["id"], r.get("detail")))
+
+    def report_refuted(ob):
+        if ob.get("confirmed"):
+            violations.append((ob.get("replay_path"), "", ob["name"]))
+        elif ob.get("via") == "finite-instantiation":
+            return False
+        else:
+            violations.append((ob.get("replay_path"), " no-failing-input-found", ob["name"]))
+        return True
 
     for res in vres:
         if res.get("error"):
             errors.append("%s: %s" % (res["target"], res["error"]))
             continue
+        qual = res["target"].split("::")[1]
         functions.append({"target": res["target"], "sha256_16": res.get("sha"), "lines": res.get("lines"),
                           "obligations": len(res["obligations"]), "wall_s": res.get("wall"),
                           "paths": (res.get("stats") or {}).get("paths")})
-        if res.get("undecided"):
-            undecided.append({"target": res["target"], "reason": res["undecided"]})
-            continue
-        for a in res.get("assumed", []):
-            assumed.append("%s: %s (%s)" % (res["target"].split("::")[1], a[0], a[1]))
-        for a in res.get("abstracted", []):
-            abstracted.append("%s %s" % (res["target"].split("::")[1], a))
+        for a in res.get("assumed", []) or []:
+            assumed.append("%s: %s (%s)" % (qual, a[0], a[1]))
+        for a in res.get("abstracted", []) or []:
+            abstracted.append("%s %s" % (qual, a))
         if res.get("canary") is not None and res["canary"]["ensures_paths"] and not res["canary"]["refuted"]:
             errors.append("%s: vacuity canary `ensures False` was NOT refuted" % res["target"])
-        if not res["obligations"]:
+        if not res["obligations"] and not res.get("undecided"):
             errors.append("%s: zero obligations generated" % res["target"])
+        lost = []  # reasons the unbounded proof of this function is gone
+        if res.get("undecided"):
+            lost.append(res["undecided"])
         for ob in res["obligations"]:
             all_obl_names.append(ob["name"])
+            solver_time += ob["time"]
+            slowest.append((ob["time"], ob["name"]))
             if ob.get("bounded"):
                 bounded.append({"obligation": ob["name"], "why": ob["bounded"], "verdict": ob["verdict"]})
             else:
                 n_obl += 1
-            solver_time += ob["time"]
-            slowest.append((ob["time"], ob["name"]))
             if ob["verdict"] == "discharged":
                 if not ob.get("bounded"):
                     n_dis += 1
                     by_backend[ob["solver"]] = by_backend.get(ob["solver"], 0) + 1
-            elif ob["verdict"] == "refuted":
-                suffix = "" if ob.get("confirmed") else " no-failing-input-found"
-                violations.append((ob.get("replay_path"), suffix, ob["name"]))
             elif ob["verdict"] == "solver-disagreement":
                 errors.append("solver disagreement on %s: %s" % (ob["name"], ob["detail"]))
+            elif ob["kind"] == "lemma":
+                errors.append("lemma not discharged: %s (%s %s)" % (ob["name"], ob["verdict"], ob["detail"]))
+            elif ob["kind"] in INTERNAL_KINDS:
+                if ob["verdict"] == "refuted" and ob.get("confirmed"):
+                    violations.append((ob.get("replay_path"), "", ob["name"]))
+                else:
+                    lost.append("%s %s" % (ob["name"], ob["verdict"]))
             else:
-                undecided.append({"target": res["target"], "obligation": ob["name"], "reason": ob["detail"]})
+                if ob["verdict"] == "refuted":
+                    if not report_refuted(ob):
+                        lost.append("%s unknown (unconfirmed candidate model)" % ob["name"])
+                else:
+                    lost.append("%s %s %s" % (ob["name"], ob["verdict"], ob["detail"]))
         for ob in res["obligations"][:2]:
             samples.append({"obligation": ob["name"], "clause": ob["clause"], "verdict": ob["verdict"], "solver": ob["solver"],
                             "time_s": ob["time"], "assumptions": ob["size"]})
+        if lost:
+            stand_ins = []
+            decided = False
+            fb = res.get("fallback")
+            if fb is not None and not fb.get("undecided"):
+                bad = [o for o in fb["obligations"] if o["verdict"] != "discharged"]
+                for o in fb["obligations"]:
+                    bounded.append({"obligation": o["name"], "why": "fallback: loops unrolled %d times" % fb["k"], "verdict": o["verdict"]})
+                    if o["verdict"] == "refuted":
+                        report_refuted(o)
+                if not bad:
+                    stand_ins.append("bounded symbolic stand-in passed (every loop unrolled %d times, %d obligations)" % (fb["k"], len(fb["obligations"])))
+                    decided = True
+                elif any(o["verdict"] == "refuted" and (o.get("confirmed") or o.get("via") != "finite-instantiation") for o in bad):
+                    decided = True
+            dr = domain_results.get("domain:" + res["target"])
+            if dr is not None and not dr.get("error"):
+                if not dr.get("failures"):
+                    stand_ins.append("native bounded domain passed (%s evaluations, %s)" % (dr.get("evaluations"), dr.get("domain")))
+                    decided = True
+                else:
+                    decided = True  # reported below with the other native failures
+            entry = {"target": res["target"], "reasons": lost[:6], "stand_ins": stand_ins}
+            if decided:
+                proof_lost.append(entry)
+            else:
+                undecided.append(entry)
 
     native_summ = []
     enum_evals = 0
     for r in nres:
         if r.get("error"):
-            errors.append("native check %s: %s" % (r["name"], r["error"]))
+            errors.append("native check %s: %s" % (r.get("name"), r["error"]))
             continue
         native_summ.append({k: r.get(k) for k in ("name", "kind", "evaluations", "distinct_nontrivial", "exhaustive", "bound", "domain", "wall", "failures_n", "samples")})
         enum_evals += r.get("evaluations", 0)
-        if r.get("kind") == "enum" and not r.get("failures"):
+        if r.get("kind") == "enum":
             n_obl += r.get("obligations", 1)
-            n_dis += r.get("obligations", 1)
-            by_backend["enum(native, exhaustive)"] = by_backend.get("enum(native, exhaustive)", 0) + r.get("obligations", 1)
-        elif r.get("kind") == "enum":
-            n_obl += r.get("obligations", 1)
-        for fl in r.get("failures", [])[:50]:
-            # is it a listed known finding?
-            kid = fl.get("known_id")
-            if kid:
-                continue
-            rp = os.path.join(HERE, "replays", "%s-%s-%s.json" % (prop, r["name"], hashlib.sha1(json.dumps(fl, sort_keys=True, default=str).encode()).hexdigest()[:10]))
-            doc = {"property": prop, "native_check": r["name"], "obligation": "%s/%s/%s" % (prop, r["name"], fl.get("clause", "")),
+            if not r.get("failures"):
+                n_dis += r.get("obligations", 1)
+                by_backend["enum(native, exhaustive)"] = by_backend.get("enum(native, exhaustive)", 0) + r.get("obligations", 1)
+        for fl in r.get("failures", [])[:20]:
+            rp = os.path.join(HERE, "replays", "%s-%s.json" % (prop, hashlib.sha1((r["name"] + json.dumps(fl, sort_keys=True, default=str)).encode()).hexdigest()[:12]))
+            doc = {"property": prop, "native_check": r["name"], "target": fl.get("target"), "obligation": "%s/%s/%s" % (prop, r["name"], fl.get("clause", "")),
                    "inputs": fl.get("inputs"), "observed": fl.get("observed"), "clause": fl.get("clause"), "confirmed": True,
                    "replay_cmd": "./xv replay " + os.path.relpath(rp, HERE)}
             with open(rp, "w") as f:
-                json.dump(doc, f, indent=1)
+                json.dump(doc, f, indent=1, default=str)
             violations.append((os.path.relpath(rp, HERE), "", doc["obligation"]))
         for kl in r.get("known_lines", []):
             if kl not in known_lines:
@@ -312,9 +385,9 @@ def check(prop, tier, repo, seed, jobs):
     slowest.sort(reverse=True)
     level = "proof"
     explanation = None
-    if undecided:
+    if proof_lost or undecided:
         level = "other"
-        explanation = "proof lost for: " + "; ".join("%s (%s)" % (u.get("obligation") or u["target"], u["reason"]) for u in undecided[:10])
+        explanation = "proof lost for: " + "; ".join("%s (%s) -> %s" % (u["target"], "; ".join(u["reasons"][:2]), "; ".join(u["stand_ins"]) or "nothing could decide it") for u in (proof_lost + undecided)[:10])
     ev = {
         "property_id": prop,
         "tier": tier,
@@ -331,16 +404,17 @@ def check(prop, tier, repo, seed, jobs):
             "slowest": [{"s": round(t, 3), "obligation": n} for t, n in slowest[:5]],
             "samples": samples[:12] or [{"note": "no smt obligations"}],
             "abstracted": abstracted,
-            "bounded_not_counted_as_proved": bounded,
+            "bounded_not_counted_as_proved": bounded[:200],
             "native_checks": native_summ,
             "known_findings": [l for l in known_lines],
+            "proof_lost": proof_lost,
             "undecided": undecided,
             "evaluations": max(1, n_obl + enum_evals),
-            "distinct_nontrivial": max(2, len(set(all_obl_names))) if all_obl_names else 2,
+            "distinct_nontrivial": max(2, len(set(all_obl_names))),
             "rule": "one case = one named verification condition (function x clause x path) generated from the current source, or one native evaluation of an enumerated/bounded domain element",
             "repo": repo,
         },
-        "assumptions": ASSUMPTIONS + [c.assumptions for c in contracts if c.assumptions and isinstance(c.assumptions, str)] + [a for c in contracts for a in (c.assumptions if isinstance(c.assumptions, list) else [])],
+        "assumptions": ASSUMPTIONS + [a for c in contracts for a in c.assumptions],
         "wall_s": round(wall, 3),
         "violations": len(violations),
     }
@@ -355,9 +429,15 @@ def check(prop, tier, repo, seed, jobs):
         prop, n_dis, n_obl, len(functions), ", ".join("%s:%d" % kv for kv in sorted(by_backend.items())), len(native_summ), wall))
     for e in errors:
         print("CHECKER-ERROR " + e.replace("\n", "\n    "))
+    for u in proof_lost:
+        print("PROOF-LOST %s: %s -> %s" % (u["target"], "; ".join(u["reasons"][:3]), "; ".join(u["stand_ins"]) or "violation found by stand-in"))
     for u in undecided:
-        print("UNDECIDED %s %s" % (u.get("obligation") or u["target"], u["reason"]))
+        print("UNDECIDED %s: %s" % (u["target"], "; ".join(u["reasons"][:3])))
+    seen = set()
     for rp, suffix, name in violations:
+        if (rp, name) in seen:
+            continue
+        seen.add((rp, name))
         print("  refuted: %s" % name)
         print("VIOLATION property=%s replay=%s%s" % (prop, rp, suffix))
     if violations:
